@@ -15,6 +15,18 @@ _POOL = {}
 TOL = 1e-10
 
 
+class OperandModified(Exception):
+    pass
+
+
+def copy_objects(objs, seed):
+    """deep copy of the shared loss / algorithm objects that KEEPS THE IDENTITY of the tomography objects they refer to
+    (a shortcut keyed on 'same tomography instance as last time' must stay reachable)"""
+    qts = build(seed)[0]
+    memo = {id(qt): qt for qt in qts.values()}
+    return copy.deepcopy(objs, memo)
+
+
 def menu(tier="quick"):
     ops = []
     losses = [("se_fast", "identity"), ("se_fast", "custom"), ("re_fast", "identity")]
@@ -23,6 +35,9 @@ def menu(tier="quick"):
             for (l, o) in losses:
                 for ao in ("both", "eq_only"):
                     ops.append((qt, d, l, o, ao))
+        # covariance-based weights on the dataset that contains zero entries (the weights are built from a regularised copy of the data)
+        # (POVM tomography: without the inequality projection - the ill-conditioned weighted run needs the full iteration budget otherwise)
+        ops.append((qt, 1, "se_fast", "invcov", "both" if qt == "qst" else "eq_only"))
     return ops
 
 
@@ -72,6 +87,9 @@ def build(seed):
                 q = np.clip(p + bump, 0.01, None)
                 q = q / q.sum()
                 n = 100 if variant == 0 else 40
+                if variant == 1 and i == 1:
+                    q = np.zeros(len(p))
+                    q[int(np.argmax(p))] = 1.0          # all shots of this schedule gave one outcome
                 ds.append((n, q))
             sets.append(ds)
         data[name] = sets
@@ -106,7 +124,8 @@ def run_op(op, objs, seed):
     qtn, d, l, o, ao = op
     qt = qts[qtn]
     if l == "se_fast":
-        lo = SEO("identity") if o == "identity" else SEO("custom", weights=[w.copy() for w in weights[qtn]])
+        lo = SEO("identity") if o == "identity" else SEO("inverse_sample_covariance") if o == "invcov" else \
+            SEO("custom", weights=[w.copy() for w in weights[qtn]])
     else:
         lo = REO("identity")
     po = PO(on_algo_eq_constraint=True, on_algo_ineq_constraint=(ao == "both"), mode_stopping_criterion_gradient_descent="sum_absolute_difference_variable",
@@ -114,6 +133,11 @@ def run_op(op, objs, seed):
     est = LossMinimizationEstimator()
     emp = [(n, q.copy()) for n, q in data[qtn][d]]
     res = est.calc_estimate(qt, emp, objs[l], lo, objs["algo"], po, is_computation_time_required=False)
+    changed = [i for i, ((n, q), (n0, q0)) in enumerate(zip(emp, data[qtn][d])) if n != n0 or q.shape != q0.shape or not np.array_equal(q, q0)]
+    if changed:
+        raise OperandModified("empirical distribution(s) %s of the caller changed, e.g. %r -> %r" % (changed, data[qtn][d][changed[0]][1].tolist(), emp[changed[0]][1].tolist()))
+    if o == "custom" and not all(np.array_equal(a, b) for a, b in zip(lo.weights, weights[qtn])):
+        raise OperandModified("weights of the caller's option changed")
     return np.array(res.estimated_var, dtype=float)
 
 
@@ -151,8 +175,12 @@ def execute(p, seed):
     seen = set()
 
     def step(objs, state, hist, op):
-        o2 = copy.deepcopy(objs)
+        o2 = copy_objects(objs, seed)
         ok, r = A.call(run_op, op, o2, seed)
+        if not ok and isinstance(r, OperandModified):
+            out.fail("estimator_machine:operand-modified:%s:%s" % (op[2], op[3]), "history %s: %s" % (
+                " -> ".join("/".join(map(str, h)) for h in hist + [op]), r))
+            return o2, state_after(state, op)
         fok, fr = fresh(op, seed)
         out.transitions += 1
         out.ops += 1
@@ -176,7 +204,7 @@ def execute(p, seed):
                 # attribute the dependence: which re-used object carries the stale state?
                 culprit = []
                 for part in ("loss", "algo"):
-                    o3 = copy.deepcopy(objs)
+                    o3 = copy_objects(objs, seed)
                     fresh_objs = new_objects()
                     if part == "loss":
                         o3["algo"] = fresh_objs["algo"]
